@@ -185,7 +185,7 @@ func (t *tr) callWrites(c *ast.CallExpr) []ast.Expr {
 	if sig.Recv() != nil && fn.Pkg() != nil && (fn.Pkg().Path() == "io" || fn.Pkg().Path() == "hash") && fn.Name() == "Write" {
 		return []ast.Expr{c.Fun.(*ast.SelectorExpr).X}
 	}
-	fi, ok := funcs[funcKey(fn)]
+	fi, ok := t.calleeInfo(fn)
 	if !ok {
 		return nil
 	}
